@@ -391,6 +391,48 @@ func runC11(r *fw.Run) {
 	} else {
 		r.Error("C11-R4: GetOrCreate not found")
 	}
+	// the optional headers component is skipped only when there is no headers builder / no hash (path rule)
+	if fi := p.Func("resolve", "InboundRequestSingleFlight.GetOrCreate"); fi != nil {
+		isLoadOrStore := func(c *ast.CallExpr) bool {
+			fn := fw.Callee(info, c)
+			return fn != nil && fn.Pkg() != nil && fn.Pkg().Path() == "sync" && fw.FuncName(fn) == "Map.LoadOrStore"
+		}
+		ok, n := componentOnEveryPath(fi, isLoadOrStore,
+			func(a fw.CondAtom) bool { return a.Kind == "Nil" && fw.IsFieldSel(info, a.X, "resolve", "Context", "SubgraphHeadersBuilder") },
+			func(nd ast.Node) bool {
+				as, isAs := nd.(*ast.AssignStmt)
+				return isAs && len(as.Rhs) == 1 && mentionsCall(info, as.Rhs[0], "resolve", "SubgraphHeadersBuilder.HashAll")
+			})
+		r.Expect("C11-R4", "key lookup sites for the headers path rule", n, 1)
+		r.Check(ok, "C11-R4", fi.Name()+"/headers-hash-on-every-path", fi.Pos(), "the inbound key takes HashAll() on every path on which a SubgraphHeadersBuilder exists",
+			"a path reaches the key lookup with a headers builder present but without HashAll() having been taken (extra condition on the headers component): requests that differ only in forwarded headers are shared")
+	}
+	if fi := p.Func("resolve", "SubgraphRequestSingleFlight.computeSFKey"); fi != nil {
+		d0 := fw.NewDeriver(fi)
+		isSum := func(c *ast.CallExpr) bool {
+			fn := fw.Callee(info, c)
+			return fn != nil && fn.Name() == "Sum64"
+		}
+		ok, n := componentOnEveryPath(fi, isSum,
+			func(a fw.CondAtom) bool {
+				if a.Kind != "Eq" {
+					return false
+				}
+				v, isC := fw.ConstVal(info, a.Y)
+				return isC && v == "0" && d0.ParamAt(3)(ast.Unparen(a.X))
+			},
+			func(nd ast.Node) bool {
+				c, isC := nd.(*ast.CallExpr)
+				if !isC {
+					return false
+				}
+				fn := fw.Callee(info, c)
+				return fn != nil && (fn.Name() == "Write" || fn.Name() == "WriteString") && len(c.Args) == 1 && d0.Derives(c.Args[0], d0.ParamAt(3))
+			})
+		r.Expect("C11-R4", "Sum64 in computeSFKey", n, 1)
+		r.Check(ok, "C11-R4", fi.Name()+"/headers-hash-on-every-path", fi.Pos(), "the subgraph key is fed the headers hash on every path on which it is non-zero",
+			"a path reaches Sum64 with a non-zero headers hash that was not written into the digest: subgraph requests that differ only in forwarded headers are coalesced")
+	}
 	if fi := p.Func("resolve", "SubgraphRequestSingleFlight.computeSFKey"); fi != nil {
 		d := fw.NewDeriver(fi)
 		n := 0
@@ -751,6 +793,34 @@ func checkLoadByContextFinish(r *fw.Run, rule string) {
 		r.Expect(rule, "exits of loadByContext after GetOrCreateItem", nExit, 4)
 	}
 
+}
+
+// componentOnEveryPath: every path to a site either passed an exempting atom (component legitimately
+// absent) or executed a contributing event. Returns the verdict and the number of sites seen.
+func componentOnEveryPath(fi *fw.FuncInfo, site func(*ast.CallExpr) bool, exempt func(fw.CondAtom) bool, contributes func(ast.Node) bool) (bool, int) {
+	info := fi.Info()
+	ok, n := true, 0
+	in := fw.NewInterp(fi)
+	in.H = fw.Hooks{
+		Cond: func(e ast.Expr, branch bool, st *fw.State) {
+			if exempt(fw.Atom(info, e, branch)) {
+				st.Set("component-ok")
+			}
+		},
+		Node: func(nd ast.Node, st *fw.State) {
+			if contributes(nd) {
+				st.Set("component-ok")
+			}
+			if c, isC := nd.(*ast.CallExpr); isC && in.Final() && site(c) {
+				n++
+				if !st.Must("component-ok") {
+					ok = false
+				}
+			}
+		},
+	}
+	in.Run(nil)
+	return ok, n
 }
 
 func cntStr(c fw.Cnt) string {
